@@ -1,8 +1,10 @@
 import Genq.Props.C14
 open Genq.Ws
+open Genq
 #print axioms C14_nothing_after_end
 #print axioms C14_closed_exactly_once
 #print axioms C14_unsubscribe_ends
 #print axioms C14_pinned_next_after_complete_witness
 #print axioms C14_prefix_in_order
 #print axioms C14_at_most_one_in_flight
+#print axioms C14_operation_template_tie
